@@ -1,4 +1,5 @@
 import Proofs.Adjoint
+import Proofs.Adjoint4
 import Props.C02
 
 /-!
@@ -13,7 +14,7 @@ are the same sum over `(k, c, tap)`.
 open Finset
 
 namespace DeconvAdjoint
-open Scatter Adjoint
+open Scatter Adjoint Adjoint4
 
 /-- the first component of a fold that updates two independent accumulators -/
 theorem fold_pair_fst {A B T : Type} (F : A → T → A) (G : B → T → B) : ∀ (l : List T) (a : A) (b : B),
@@ -82,6 +83,79 @@ theorem input_adjoint (l : Deconv ℝ) (x v : V3 ℝ) (ks : List (V3 ℝ)) (delt
     obtain ⟨f, _, c, hc, t, ht, rfl⟩ := hu
     have := (C02.mem_taps l ih iw kh kw oh ow t).mp ht
     exact ⟨hc, this.1, this.2.1⟩
+  · intro u hu
+    unfold C02.deconvUpdates at hu
+    simp only [List.mem_flatMap, List.mem_range, List.mem_map] at hu
+    obtain ⟨k, hk, c, _, t, ht, rfl⟩ := hu
+    have := (C02.mem_taps l ih iw kh kw oh ow t).mp ht
+    exact ⟨hk, this.2.2.2.2.2.2.2.2.1, this.2.2.2.2.2.2.2.2.2⟩
+
+
+/-! ### the kernels -/
+
+theorem fold_pair_snd {A B T : Type} (F : A → T → A) (G : B → T → B) : ∀ (l : List T) (a : A) (b : B),
+    (l.foldl (fun (acc : A × B) t => (F acc.1 t, G acc.2 t)) (a, b)).2 = l.foldl G b
+  | [], _, _ => rfl
+  | t :: l, a, b => by simp only [List.foldl_cons]; exact fold_pair_snd F G l _ _
+
+/-- the kernel-gradient updates of the backward pass -/
+noncomputable def kgUpdates (x delta : V3 ℝ) (kf kc : ℕ) (tp : List (ℕ × ℕ × ℕ × ℕ × ℕ × ℕ)) : List Upd4 :=
+  (List.range kf).flatMap (fun f => (List.range kc).flatMap (fun c => tp.map (fun t =>
+    ⟨f, c, t.2.2.1, t.2.2.2.1, L.get3D 0 delta f t.2.2.2.2.1 t.2.2.2.2.2 * L.get3D 0 x c t.1 t.2.1⟩)))
+
+theorem gradPass_snd (x : V3 ℝ) (ks : List (V3 ℝ)) (delta : V3 ℝ) (kf kc kh kw ih iw : ℕ)
+    (tp : List (ℕ × ℕ × ℕ × ℕ × ℕ × ℕ)) :
+    (Deconv.gradPass x ks delta kf kc kh kw ih iw tp).2 =
+      (kgUpdates x delta kf kc tp).foldl (fun acc u => L.mod4 (· + u.v) acc u.f u.c u.i u.j) (L.replicate4 kf kc kh kw 0) := by
+  unfold Deconv.gradPass kgUpdates
+  have inner : ∀ (f c : ℕ) (acc : V3 ℝ × V4 ℝ),
+      (tp.foldl (Deconv.gradStep x ks delta f c) acc).2 =
+        tp.foldl (fun b t => L.mod4 (· + L.get3D 0 delta f t.2.2.2.2.1 t.2.2.2.2.2 * L.get3D 0 x c t.1 t.2.1) b f c t.2.2.1 t.2.2.2.1) acc.2 := by
+    intro f c acc
+    obtain ⟨a, b⟩ := acc
+    exact fold_pair_snd
+      (fun a t => L.mod3 (· + L.get3D 0 delta f t.2.2.2.2.1 t.2.2.2.2.2 * L.get4D 0 ks f c t.2.2.1 t.2.2.2.1) a c t.1 t.2.1)
+      (fun b t => L.mod4 (· + L.get3D 0 delta f t.2.2.2.2.1 t.2.2.2.2.2 * L.get3D 0 x c t.1 t.2.1) b f c t.2.2.1 t.2.2.2.1)
+      tp a b
+  have mid : ∀ (f : ℕ) (cs : List ℕ) (acc : V3 ℝ × V4 ℝ),
+      (cs.foldl (fun acc c => tp.foldl (Deconv.gradStep x ks delta f c) acc) acc).2 =
+        cs.foldl (fun b c => tp.foldl (fun b t => L.mod4 (· + L.get3D 0 delta f t.2.2.2.2.1 t.2.2.2.2.2 * L.get3D 0 x c t.1 t.2.1) b f c t.2.2.1 t.2.2.2.1) b) acc.2 := by
+    intro f cs
+    induction cs with
+    | nil => intro acc; rfl
+    | cons c cs ih => intro acc; simp only [List.foldl_cons]; rw [ih, inner]
+  have outer : ∀ (fs : List ℕ) (acc : V3 ℝ × V4 ℝ),
+      (fs.foldl (fun acc f => (List.range kc).foldl (fun acc c => tp.foldl (Deconv.gradStep x ks delta f c) acc) acc) acc).2 =
+        fs.foldl (fun b f => (List.range kc).foldl (fun b c => tp.foldl (fun b t =>
+          L.mod4 (· + L.get3D 0 delta f t.2.2.2.2.1 t.2.2.2.2.2 * L.get3D 0 x c t.1 t.2.1) b f c t.2.2.1 t.2.2.2.1) b) b) acc.2 := by
+    intro fs
+    induction fs with
+    | nil => intro acc; rfl
+    | cons f fs ih => intro acc; simp only [List.foldl_cons]; rw [ih, mid]
+  rw [outer]
+  simp only [List.foldl_flatMap, List.foldl_map]
+
+/-- **adjoint identity for the deconvolution's kernels**: for every upstream `δ` and every kernel
+    direction `dK`, `⟨δ, forward with kernels dK⟩ = ⟨kernel gradient(δ), dK⟩` -/
+theorem kernel_adjoint (l : Deconv ℝ) (x : V3 ℝ) (ks dK : List (V3 ℝ)) (delta : V3 ℝ) (kf kc ih iw kh kw oh ow : ℕ) :
+    ip3 kf oh ow (Deconv.scatter x dK kf kc (Deconv.taps l ih iw kh kw oh ow) oh ow) delta =
+      ip4 kf kc kh kw (Deconv.gradPass x ks delta kf kc kh kw ih iw (Deconv.taps l ih iw kh kw oh ow)).2 dK := by
+  rw [C02.scatter_as_updates, gradPass_snd]
+  rw [ip3_scatter_zeros, ip4_scatter_zeros]
+  · unfold C02.deconvUpdates kgUpdates
+    simp only [List.map_flatMap, List.map_map]
+    congr 1
+    apply List.flatMap_congr; intro f _
+    apply List.flatMap_congr; intro c _
+    apply List.map_congr_left; intro t _
+    simp only [Function.comp]
+    ring
+  · intro u hu
+    unfold kgUpdates at hu
+    simp only [List.mem_flatMap, List.mem_range, List.mem_map] at hu
+    obtain ⟨f, hf, c, hc, t, ht, rfl⟩ := hu
+    have := (C02.mem_taps l ih iw kh kw oh ow t).mp ht
+    exact ⟨hf, hc, this.2.2.1, this.2.2.2.1⟩
   · intro u hu
     unfold C02.deconvUpdates at hu
     simp only [List.mem_flatMap, List.mem_range, List.mem_map] at hu
